@@ -25,8 +25,9 @@ Record flat_struct (s : struct) : Prop := {
   fs_names : NoDup (map f_name (struct_fields_nc s));
   fs_no_size_member : forall f, In f (struct_fields_nc s) -> f_name f <> "size";
   fs_ordered : ordered tm (struct_fields_nc s) [] (struct_fields_nc s);
-  fs_fixed : exists f i, In f (struct_fields_nc s) /\ 0 < it_size i /\
-             (classify tm (struct_fields_nc s) f = Some (MkInt i) \/ exists n, classify tm (struct_fields_nc s) f = Some (MkReserved i n))
+  fs_fixed : exists f, In f (struct_fields_nc s) /\
+             ((exists k i, classify tm (struct_fields_nc s) f = Some k /\ int_kind k = Some i /\ 0 < it_size i) \/
+              (exists t, classify tm (struct_fields_nc s) f = Some (MkNamed t)))
 }.
 
 (* admissible values, by struct nesting depth *)
@@ -253,19 +254,21 @@ Proof.
       { unfold self. rewrite size_struct_value, Hls, size_struct_S, (base_none s Hnb), (own_fields_no_base s Hnb). exact Hsize. }
       repeat split; [exact Hdec | exact Hsz' |].
       (* at least one fixed-width member: the encoding is not empty *)
-      destruct Hfix as (f & i & Hin & Hpos & Hkind).
+      destruct Hfix as (f & Hin & Hkind).
       apply in_split in Hin as (l1 & l2 & Hl). fold allfs in Hl.
       assert (Henc2 : serialize_fields_go OP tm (Rk k') s allfs total self false (l1 ++ f :: l2) = Ok b) by (rewrite <- Hl; exact Henc).
       destruct (member_offset OP tm (Rk k') s allfs total self l1 f l2 b Henc2) as (b1 & bf & b2 & _ & Hf & _ & -> & _).
-      assert (length bf = Z.to_nat (it_size i)).
+      assert (0 < length bf)%nat.
       { pose proof (Hty f ltac:(rewrite Hl; apply in_or_app; right; now left)) as Htf. unfold member_typed in Htf.
-        destruct Hkind as [Hkd|[m Hkd]]; fold allfs in Hkd; rewrite Hkd in Htf.
-        - destruct Htf as [z Hz]. pose proof (classify_plain_int tm allfs f i Hkd) as (Hp & Hft).
-          rewrite (LayoutLaws.int_le OP tm (Rk k') s allfs total self f i z Hp Hft Hz) in Hf.
-          exact (proj1 (proj2 (int_le_bytes _ _ _ _ Hf))).
-        - pose proof (classify_reserved tm allfs f i m Hkd) as (Hc & Hb & Hcomp & Hr & Hft & Hfv).
-          rewrite (LayoutLaws.reserved_is_constant OP tm (Rk k') s allfs total self f i m Hc Hb Hcomp Hr Hft Hfv) in Hf.
-          exact (proj1 (proj2 (int_le_bytes _ _ _ _ Hf))). }
+        destruct Hkind as [(kd & i & Hkd & Hik & Hpos)|(t & Hkd)]; fold allfs in Hkd.
+        - destruct (classify_int_kind tm allfs f kd i Hkd Hik) as [Hft Hc].
+          pose proof (member_size_ok OP tm (Rk k') s allfs (adm n) Hsub self total f bf (Hty f ltac:(rewrite Hl; apply in_or_app; right; now left)) Hf) as Hms.
+          rewrite (cond_self_none tm (Rk k') allfs self f Hc) in Hms. cbn [bind] in Hms. unfold member_size in Hms. rewrite Hft in Hms.
+          injection Hms as Hms. lia.
+        - rewrite Hkd in Htf. destruct Htf as (v & Hv & Hnn & Hav).
+          pose proof (classify_named tm allfs f t Hkd) as (Hc & Hb & Hr & Hft).
+          rewrite (conditional_present OP tm (Rk k') s allfs total self f t v (cond_self_none tm (Rk k') allfs self f Hc) Hb Hft Hr Hv Hnn) in Hf.
+          exact (proj2 (proj2 (Hsub t v bf [] Hav Hf))). }
       rewrite !app_length. lia.
 Qed.
 
